@@ -107,6 +107,11 @@ def tempstore_replay(runner, impl, scripts):
         prev = {}
         for i, b in enumerate(blocks):
             cur = parse_Q(b)
+            # a buffer is not dumped while its allocator is in the initial state (target 4096, nothing allocated, no block):
+            # a buffer that was dumped before and is absent now is back in exactly that state
+            for t in list(prev):
+                if t not in cur and b['tags'].get('V') is not None:
+                    cur[t] = dict(target=4096, total=0, chunks=[], allocs=[])
             for t, v in cur.items():
                 pv = prev.get(t, dict(target=4096, total=0, chunks=[], allocs=[]))
                 if len(v['allocs']) >= len(pv['allocs']) and v['allocs'][:len(pv['allocs'])] == pv['allocs'] and (v['allocs'] != pv['allocs'] or v == pv):
@@ -131,9 +136,11 @@ def tempstore_replay(runner, impl, scripts):
     import subprocess
     out = subprocess.run([runner, 'tempstore'], input=('\n'.join(lines) + '\n').encode(), stdout=subprocess.PIPE, timeout=600).stdout.decode().split('\n')
     div = []
-    for e, o in zip(expect, out):
+    for j, (e, o) in enumerate(zip(expect, out)):
         if e is not None and e[3] != o.strip():
-            div.append(dict(script=e[0], opn=e[1], op=e[2], impl=e[3], model=o.strip()))
+            lo = max(0, j - 6)
+            ctx = ' | '.join('%s -> %s' % (lines[k], out[k].strip()) for k in range(lo, j + 1))
+            div.append(dict(script=e[0], opn=e[1], op=e[2], impl=e[3], model=o.strip() + '\n  replayed: ' + ctx))
     return div, sum(1 for e in expect if e is not None and e[3].startswith('A '))
 
 
@@ -159,6 +166,8 @@ def deferred_storage_run(rng, n):
         return r, len(scripts), [], 0
     runner, _ = vlib.build_runner()
     tdiv, tn = tempstore_replay(runner, impl, scripts)
+    for d_ in tdiv:
+        d_['lines'] = dict(scripts)[d_['script']]
     return None, len(scripts), tdiv, tn
 
 
@@ -233,7 +242,7 @@ def run(tier, seed, replay=None):
         what = ['proof obligation broken: ' + x for x in pr['failed']]
         if ts_div:
             d = ts_div[0]
-            what.append('correspondence TempStore model vs the command-buffer allocator diverges: script %s op %d (%s)\n  impl : %s\n  model: %s' % (d['script'], d['opn'], d['op'], d['impl'], d['model']))
+            what.append('correspondence TempStore model vs the command-buffer allocator diverges: script %s op %d (%s)\n  impl : %s\n  model: %s' % (d['script'], d['opn'], d['op'], d['impl'], d['model']) + '\nscript:\n' + '\n'.join(d.get('lines', [])))
         if div:
             d = div[0]
             what.append('correspondence Layout model vs implementation diverges on: %s\n  impl : %s\n  model: %s' % (d['op'], d['impl'], d['model']))
